@@ -261,8 +261,8 @@ mutual
     | f :: rest => prefixedPrevious prefixed f || prefixedPreviousL prefixed rest
 end
 
-def c06 (g : Globals) (d : Builder.Decl) : Option String :=
-  if unsupportedFields d.fields then some "excluded:unsupported-go-type"
+def c06 (g : Globals) (d : Builder.Decl) (allowUnsupported : Bool := false) : Option String :=
+  if !allowUnsupported && unsupportedFields d.fields then some "excluded:unsupported-go-type"
   else if columnCounts d.fields == 0 then some "excluded:no-columns"
   else if prefixedPreviousL false d.fields then some "previous-name-in-prefixed-embedded-struct"
   else if anyTags (fun t => (t.splitOn ",previous:").length > 1 && ((t.splitOn ";").map Builder.snake).any (fun n =>
